@@ -10,5 +10,5 @@ for d in /tmp/benign$r-$p/change*; do
   out=$(tools/tryseed.sh $d/patch.diff $p "$@" 2>&1)
   echo "$out"
   mkdir -p selftest/benign/$p
-  if echo "$out" | grep -q "obligation\|does not apply"; then cp $d/patch.diff selftest/benign/$p/$name.patch.alarm; else cp $d/patch.diff selftest/benign/$p/$name.patch; fi
+  if echo "$out" | grep -q "^  obligation\|does not apply"; then cp $d/patch.diff selftest/benign/$p/$name.patch.alarm; else cp $d/patch.diff selftest/benign/$p/$name.patch; fi
 done
